@@ -9,6 +9,7 @@ import (
 	"github.com/invopop/gobl/cbc"
 	"github.com/invopop/gobl/currency"
 	"github.com/invopop/gobl/internal"
+	"github.com/invopop/gobl/num"
 	"github.com/invopop/gobl/org"
 	"github.com/invopop/gobl/schema"
 	"github.com/invopop/gobl/tax"
@@ -217,16 +218,21 @@ func (inv *Invoice) Invert() error {
 		row.Quantity = row.Quantity.Invert()
 		for _, d := range row.Discounts {
 			d.Amount = d.Amount.Invert()
+			d.Base = invertAmountPtr(d.Base)
 		}
 		for _, c := range row.Charges {
 			c.Amount = c.Amount.Invert()
+			c.Base = invertAmountPtr(c.Base)
+			c.Quantity = invertAmountPtr(c.Quantity)
 		}
 	}
 	for _, row := range inv.Charges {
 		row.Amount = row.Amount.Invert()
+		row.Base = invertAmountPtr(row.Base)
 	}
 	for _, row := range inv.Discounts {
 		row.Amount = row.Amount.Invert()
+		row.Base = invertAmountPtr(row.Base)
 	}
 	if inv.Payment != nil {
 		for _, row := range inv.Payment.Advances {
@@ -246,6 +252,16 @@ func (inv *Invoice) Invert() error {
 	}
 
 	return nil
+}
+
+// invertAmountPtr inverts the amount behind the pointer, if any, without
+// modifying the original value.
+func invertAmountPtr(a *num.Amount) *num.Amount {
+	if a == nil {
+		return nil
+	}
+	n := a.Invert()
+	return &n
 }
 
 // Empty is a convenience method that will empty all the lines and
